@@ -186,6 +186,40 @@ def run(ctx):
             ctx.violation({"site": "files.stdin", "case": name}, {"table": name, "rows": n}, expected="ids 0..%d" % (n - 1), observed={"exit": rc, "rows": len(got), "stderr": err[-200:], "head": got[:5]},
                           note="data piped on stdin is not returned completely / in order")
     ctx.cover(evaluations=len(jobs), distinct=len(jobs))
+    # ---------------- T: recorded executions of the reader / pool / consumer validated by TLC against JsonReaderTrace.tla ----------------
+    tq = []
+    sizes = [0, 1, 63, 64, 65, 200, 1000, 9000] + ([20000, 30000] if thorough else [])
+    for n_ in sizes:
+        pth = os.path.join(d, "trace%d.json" % n_)
+        with open(pth, "w") as f:
+            for i in range(n_):
+                f.write(json.dumps({"id": i, "s": "v%d" % i}) + "\n")
+        for seed, slow, lim in ((0, 0, -1), (ctx.seed * 7 + 1, 0, -1), (ctx.seed * 7 + 2, 3, -1), (ctx.seed * 7 + 3, 0, 70)):
+            if n_ == 0 and seed:
+                continue
+            sql = "SELECT t.id AS id FROM %s t" % pth + (" LIMIT %d" % lim if lim >= 0 else "")
+            tq.append({"id": len(tq), "sql": sql, "hook": {"kind": "trace", "seed": seed, "slow_every": slow}, "lines": n_, "limit": lim})
+    inp, out = ctx.scratch + "/c23_tr_q.ndjson", ctx.scratch + "/c23_tr_r.ndjson"
+    ctx.write_ndjson(inp, tq)
+    ctx.driver("file-run", ["-in", inp, "-out", out], timeout=3000)
+    events = []
+    for c, x in zip(tq, ctx.read_ndjson(out)):
+        if x["stage"] in ("typecheck", "parse"):
+            continue          # an empty file has no schema
+        events.append({"e": "new", "lines": c["lines"], "limit": c["limit"], "sql": c["sql"], "hook": c["hook"]})
+        events += x.get("trace") or []
+        events.append({"e": "end", "ok": x["stage"] == ""})
+    tcfg = "SPECIFICATION TSpec\nINVARIANT LayerP\nPOSTCONDITION TraceAccepted\nCONSTANTS B = 64\n CapTok = 128\nCHECK_DEADLOCK FALSE\n"
+    is_new = lambda e: e.get("e") == "new"
+    fails, res, drifts, ntr = core.validate_trace(ctx, "JsonReaderTrace", tcfg, "json_trace.ndjson", events, is_new, timeout=3000)
+    for f_ in fails:
+        ctx.violation({"site": "datasources.json", "why": f_["why"][:60], "limit": f_["header"]["limit"] >= 0}, {"sql": f_["header"]["sql"], "hook": f_["header"]["hook"], "lines": f_["header"]["lines"]},
+                      expected="rows in file order, each once, all of them (JsonReaderTrace.tla LayerP)", observed=f_["events"][max(0, f_["bad_index"] - 3):f_["bad_index"] + 2], note=f_["why"])
+    ctx.cover(states=res.distinct if res else 0, transitions=res.generated if res else 0, traces=ntr, evaluations=len(events), distinct=ntr)
+    ctx.notes["trace_validation"] = {"executions": ntr, "events": len(events), "layer_I_drift": drifts, "largest_file_lines": max(sizes)}
+    # negative control: two rows swapped must be rejected
+    ctl = [{"e": "new", "lines": 2, "limit": -1}, {"e": "read", "first": 0, "n": 2}, {"e": "parsed", "first": 0, "n": 2}, {"e": "take", "first": 0, "n": 2}, {"e": "row", "i": 1}, {"e": "row", "i": 0}, {"e": "end", "ok": True}]
+    core.negative_control(ctx, "JsonReaderTrace", tcfg, "json_trace.ndjson", ctl)
     # ---------------- parquet: files written value by value with explicit repetition / definition levels ----------------
     pdir = os.path.join(d, "pq")
     os.makedirs(pdir)
